@@ -172,12 +172,12 @@ func applyForeignCuts(repo, pkgDir, pkgName string, keys []string, overlay map[s
 				if len(results) > 0 {
 					res = " (" + strings.Join(results, ", ") + ")"
 				}
-				fmt.Fprintf(&extra, "\n// native replay hook for the harness cut verifStub_%s\nvar VerifHook_%s func(%s)%s\n\n", key, key, strings.Join(hookParams, ", "), res)
+				fmt.Fprintf(&extra, "\n// native replay hook for the harness cut verifStub_%s\nvar VerifHook_%s func(%s)%s\nvar VerifHook_%s__busy bool\n\n", key, key, strings.Join(hookParams, ", "), res, key)
 				fmt.Fprintf(&extra, "func %s%s(%s)%s {\n", recvDecl, fd.Name.Name, strings.Join(wrapParams, ", "), res)
 				if len(results) > 0 {
-					fmt.Fprintf(&extra, "\tif VerifHook_%s != nil {\n\t\treturn VerifHook_%s(%s)\n\t}\n\treturn %s(%s)\n}\n", key, key, strings.Join(callArgs, ", "), origCall, strings.Join(origArgs, ", "))
+					fmt.Fprintf(&extra, "\tif VerifHook_%[1]s != nil && !VerifHook_%[1]s__busy {\n\t\tVerifHook_%[1]s__busy = true\n\t\tdefer func() { VerifHook_%[1]s__busy = false }()\n\t\treturn VerifHook_%[2]s(%[3]s)\n\t}\n\treturn %[4]s(%[5]s)\n}\n", key, key, strings.Join(callArgs, ", "), origCall, strings.Join(origArgs, ", "))
 				} else {
-					fmt.Fprintf(&extra, "\tif VerifHook_%s != nil {\n\t\tVerifHook_%s(%s)\n\t\treturn\n\t}\n\t%s(%s)\n}\n", key, key, strings.Join(callArgs, ", "), origCall, strings.Join(origArgs, ", "))
+					fmt.Fprintf(&extra, "\tif VerifHook_%[1]s != nil && !VerifHook_%[1]s__busy {\n\t\tVerifHook_%[1]s__busy = true\n\t\tdefer func() { VerifHook_%[1]s__busy = false }()\n\t\tVerifHook_%[2]s(%[3]s)\n\t\treturn\n\t}\n\t%[4]s(%[5]s)\n}\n", key, key, strings.Join(callArgs, ", "), origCall, strings.Join(origArgs, ", "))
 				}
 				fd.Name = ast.NewIdent(fd.Name.Name + "__verifOrig")
 			}
